@@ -1,4 +1,6 @@
 ---------------------------- MODULE Ind_Mul ----------------------------
+(* Apalache inductive lemma (unbounded integers): digit-serial multiplication by one digit, least significant digit first -   *)
+(* the step of Bignum!MulStep: pout + carry * pow = pin * b with carry in 0..8 is inductive for an arbitrary next digit.          *)
 EXTENDS Integers
 \* Digit-serial multiplication by a single digit b, least significant digit first.
 \* pin  = value of the input digits consumed so far, pout = value of the output digits produced so far,
